@@ -252,8 +252,9 @@ def run(ctx) -> None:
                                 bad, ok, msg = [], True, ""
                             else:
                                 ok, msg = False, f"the element replaced at `{key}` was tested with `{ftxt[:60]}`, which is not the partner predicate"
-                        elif first == f"{OUT}[{key}]" and c.get(f"isinstance({first}, tuple)") is False and c.get(f"{first}.is_moved_from") is True and (c.get(f"{first}.cookie == REC.cookie") is True or c.get(f"REC.cookie == {first}.cookie") is True):
-                            # the element at the index found by the search was tested, on this path, with the (inlined) partner predicate
+                        elif first == f"{OUT}[{key}]" and (key == "0" or re.fullmatch(r"\w+@(after)?L\d+", key)) and c.get(f"isinstance({first}, tuple)") is False and c.get(f"{first}.is_moved_from") is True and (c.get(f"{first}.cookie == REC.cookie") is True or c.get(f"REC.cookie == {first}.cookie") is True):
+                            # the element at the index a forward search stopped at (a loop-carried counter, or 0 when the first element matched) was
+                            # tested, on this path, with the (inlined) partner predicate
                             bad, ok, msg = [], True, ""
                         elif not (first == "OLD" and key == "IDX"):
                             ok, msg = False, f"in-batch partner {first} is not replaced in place at its own index ({e.extra.get('key')}): it would also be delivered alone"
